@@ -808,31 +808,31 @@ def o_p2_bad(case):
 def subchecks(tier):
     S = SubCheck
     subs = [
-        S("cp/to_tensor", _cp_case(), o_cp_tensor, quick=700, thorough=7000),
-        S("cp/to_unfolded", _cp_case(), o_cp_unfolded, quick=500, thorough=5000),
-        S("cp/to_vec", _cp_case(), o_cp_vec, quick=500, thorough=5000),
-        S("cp/mask_full", _cp_case(max_order=4, mask="full"), o_cp_mask, quick=500, thorough=5000),
-        S("cp/mask_broadcast", _cp_case(max_order=4, mask="broadcast"), o_cp_mask, quick=400, thorough=4000),
-        S("cp/wrapper", _cp_wrapper_case(), o_cp_wrapper, quick=500, thorough=5000),
-        S("cp/norm", _cp_case(), o_cp_norm, quick=700, thorough=7000),
-        S("cp/reject", _cp_bad_case(), o_cp_bad, quick=500, thorough=5000),
-        S("tucker/to_tensor", _tucker_case(), o_tucker_tensor, quick=700, thorough=7000),
-        S("tucker/views", _tucker_case(), o_tucker_views, quick=500, thorough=5000),
-        S("tucker/wrapper", _tucker_case(), o_tucker_wrapper, quick=500, thorough=5000),
-        S("tucker/options", _tucker_case(options=True), o_tucker_options, quick=700, thorough=7000),
-        S("tucker/reject", _tucker_bad_case(), o_tucker_bad, quick=500, thorough=5000),
+        S("cp/to_tensor", _cp_case(), o_cp_tensor, quick=500, thorough=7000),
+        S("cp/to_unfolded", _cp_case(), o_cp_unfolded, quick=350, thorough=5000),
+        S("cp/to_vec", _cp_case(), o_cp_vec, quick=350, thorough=5000),
+        S("cp/mask_full", _cp_case(max_order=4, mask="full"), o_cp_mask, quick=350, thorough=5000),
+        S("cp/mask_broadcast", _cp_case(max_order=4, mask="broadcast"), o_cp_mask, quick=300, thorough=4000),
+        S("cp/wrapper", _cp_wrapper_case(), o_cp_wrapper, quick=350, thorough=5000),
+        S("cp/norm", _cp_case(), o_cp_norm, quick=500, thorough=7000),
+        S("cp/reject", _cp_bad_case(), o_cp_bad, quick=350, thorough=5000),
+        S("tucker/to_tensor", _tucker_case(), o_tucker_tensor, quick=500, thorough=7000),
+        S("tucker/views", _tucker_case(), o_tucker_views, quick=350, thorough=5000),
+        S("tucker/wrapper", _tucker_case(), o_tucker_wrapper, quick=350, thorough=5000),
+        S("tucker/options", _tucker_case(options=True), o_tucker_options, quick=500, thorough=7000),
+        S("tucker/reject", _tucker_bad_case(), o_tucker_bad, quick=350, thorough=5000),
     ]
     for kind in ("tt", "tr", "ttm"):
         subs += [
-            S(f"{kind}/to_tensor", _chain_case(kind), o_chain_tensor, quick=700, thorough=7000),
-            S(f"{kind}/views", _chain_case(kind), o_chain_views, quick=500, thorough=5000),
-            S(f"{kind}/wrapper", _chain_case(kind), o_chain_wrapper, quick=500, thorough=5000),
-            S(f"{kind}/reject", _chain_bad_case(kind), o_chain_bad, quick=500, thorough=5000),
+            S(f"{kind}/to_tensor", _chain_case(kind), o_chain_tensor, quick=500, thorough=7000),
+            S(f"{kind}/views", _chain_case(kind), o_chain_views, quick=350, thorough=5000),
+            S(f"{kind}/wrapper", _chain_case(kind), o_chain_wrapper, quick=350, thorough=5000),
+            S(f"{kind}/reject", _chain_bad_case(kind), o_chain_bad, quick=350, thorough=5000),
         ]
     subs += [
-        S("parafac2/slices", _p2_case(), o_p2_slices, quick=350, thorough=5000),
-        S("parafac2/tensor_views", _p2_case(), o_p2_tensor, quick=350, thorough=5000),
-        S("parafac2/wrapper", _p2_case(), o_p2_wrapper, quick=500, thorough=5000),
-        S("parafac2/reject", _p2_bad_case(), o_p2_bad, quick=500, thorough=5000),
+        S("parafac2/slices", _p2_case(), o_p2_slices, quick=250, thorough=5000),
+        S("parafac2/tensor_views", _p2_case(), o_p2_tensor, quick=250, thorough=5000),
+        S("parafac2/wrapper", _p2_case(), o_p2_wrapper, quick=350, thorough=5000),
+        S("parafac2/reject", _p2_bad_case(), o_p2_bad, quick=350, thorough=5000),
     ]
     return subs
